@@ -15,9 +15,11 @@ Run(S, evs, i, devs) ==
             ELSE LET D == UNION {SuccDevFeeDefault(s, e) : s \in S}
                      B == UNION {SuccDevBalanceZero(s, e) : s \in S}
                      P == UNION {SuccDevIsSpentFalse(s, e) : s \in S}
+                     A == UNION {SuccDevAfterInsideBlock(s, e) : s \in S}
                  IN IF D # {} THEN Run(D, evs, i + 1, devs \cup {"estimatefee-default-on-failure"})
                     ELSE IF B # {} THEN Run(B, evs, i + 1, devs \cup {"getbalance-zero-on-failure"})
                     ELSE IF P # {} THEN Run(P, evs, i + 1, devs \cup {"isspent-unspent-on-failure"})
+                    ELSE IF A # {} THEN Run(A, evs, i + 1, devs \cup {"cache-after-txid-inside-a-block"})
                     ELSE [v |-> "rejected", at |-> i, devs |-> devs]
 Out == [k \in 1..Len(Recs) |-> Run({InitState}, Recs[k].events, 1, {})]
 ASSUME ndJsonSerialize(IOEnv.OUT_FILE, Out)
